@@ -10,5 +10,5 @@ Extraction "model.ml"
   model_kind
   b_create_request b_create_requests
   Config.check Config.key_of
-  session c_valid c_auth_req c_auth_ok c_verdict validb
+  session send_one_result c_valid c_auth_req c_auth_ok c_verdict validb
   parse_requests j_parse render_json render_simple render_merged cli_main.
